@@ -112,9 +112,10 @@ theorem mutation_meaning (s : Bytes) :
     Mut.abs s .trim = ((s.dropWhile isSpace).reverse.dropWhile isSpace).reverse ∧ Mut.abs s .clear = [] ∧
     (∀ a, Mut.abs s (.shrink a) = s.take (a % (s.length + 1))) ∧
     (∀ n c, Mut.abs s (.grow n c) = s ++ List.replicate n c) ∧ (∀ n c, Mut.abs s (.refill n c) = List.replicate n c) ∧
-    (∀ n, Mut.abs s (.reserve n) = s) ∧ (∀ a, Mut.abs s (.pokeFix a) = s.take (a % (s.length + 1))) :=
+    (∀ n, Mut.abs s (.reserve n) = s) ∧ (∀ a, Mut.abs s (.pokeFix a) = s.take (a % (s.length + 1))) ∧
+    (∀ a b, Mut.abs s (.replaceMe a b) = s.map fun c => if c == a then b else c) :=
   ⟨fun _ => rfl, fun _ => rfl, fun _ => rfl, fun _ => rfl, fun _ _ => rfl, rfl, fun _ _ => rfl, fun _ => rfl, rfl, rfl, rfl,
-   fun _ => rfl, fun _ _ => rfl, fun _ _ => rfl, fun _ => rfl, fun _ => rfl⟩
+   fun _ => rfl, fun _ _ => rfl, fun _ _ => rfl, fun _ => rfl, fun _ => rfl, fun _ _ => rfl⟩
 
 /-- every single mutation: in bounds, invariant kept, result = its byte-string meaning -/
 theorem mutation_spec {r : Rep} {s : Bytes} (h : Models r s) (m : Mut) (hv : m.Valid) :
